@@ -43,6 +43,8 @@ def dims_of(nd):
 
 DTYPES = {"float64": np.float64, "float32": np.float32, "int32": np.int32, "int64": np.int64, "uint8": np.uint8,
           "int8": np.int8, "complex": np.complex128}
+SETDT = {"bool": bool, "int": np.int64, "float": float, "uint8": np.uint8, "int8": np.int8, "float32": np.float32,
+         "complex": complex}
 ARG_CHANGED = []     # descriptions of caller-supplied containers that an operation modified
 
 
@@ -290,8 +292,9 @@ def apply_map(x, name, p):
             return x[p["name"]]
         pmin = x.mesh.region.pmin
         cell = x.mesh.cell
-        q1 = [float(a + o * h) for a, o, h in zip(pmin, p["offs"], cell)]
-        q2 = [float(a + (o + s_) * h) for a, o, s_, h in zip(pmin, p["offs"], p["sh"], cell)]
+        ins = 0.25 if p.get("inset") else 0.0     # region strictly inside the block: immune to rounded corners
+        q1 = [float(a + (o + ins) * h) for a, o, h in zip(pmin, p["offs"], cell)]
+        q2 = [float(a + (o + s_ - ins) * h) for a, o, s_, h in zip(pmin, p["offs"], p["sh"], cell)]
         q1, q2 = wrap_seq(q1, cont), wrap_seq(q2, cont)
         reg = df.Region(p1=q1, p2=q2, dims=dims)
         before = (reg.pmin.copy(), reg.pmax.copy())
@@ -341,29 +344,138 @@ def expected_map(x, exp_x, name, p):
     return out, ids
 
 
-def ev(t, leaves):
-    """returns (field, expected mask, set of leaf indices the result may legitimately be)"""
+class Ctx:
+    """evaluation context: the operands, plus every intermediate result whose mask was written in place before
+    it was used further (it is an operand of the later operations in its own right)"""
+
+    def __init__(self, leaves):
+        self.leaves = leaves
+        self.extra = []          # (field, mask read back right after the write)
+        self.idx = {}            # path of the poke node -> operand number
+
+
+def ev(t, ctx, path=()):
+    """returns (field, expected mask)"""
     tag = t[0]
     if tag == "leaf":
-        f = leaves[t[1]]
+        f = ctx.leaves[t[1]]
         return f, f.valid.copy()
     if tag == "pos":
-        x, e = ev(t[1], leaves)
+        x, e = ev(t[1], ctx, path + (1,))
         return +x, e
+    if tag == "poke":
+        x, e = ev(t[2], ctx, path + (2,))
+        e = e.copy()
+        for i in t[1]:
+            ii = np.unravel_index(i % x.valid.size, x.valid.shape)
+            x.valid[ii] = not x.valid[ii]          # in-place write into the result's mask between operations
+            e[ii] = not e[ii]
+        ctx.idx[path] = len(ctx.leaves) + len(ctx.extra)
+        ctx.extra.append((x, np.array(x.valid, dtype=bool).copy()))
+        return x, e
     if tag == "un":
-        x, e = ev(t[3], leaves)
+        x, e = ev(t[3], ctx, path + (3,))
         return apply_un(x, t[1], t[2]), e
     if tag == "bin":
-        x, e1 = ev(t[3], leaves)
-        y, e2 = ev(t[4], leaves)
+        x, e1 = ev(t[3], ctx, path + (3,))
+        y, e2 = ev(t[4], ctx, path + (4,))
         r = apply_bin(x, y, t[1], t[2])
         return r, np.logical_and(e1, e2)
     if tag == "map":
-        x, e = ev(t[3], leaves)
+        x, e = ev(t[3], ctx, path + (3,))
         r = apply_map(x, t[1], t[2])
         exp, _ = expected_map(x, e, t[1], t[2])
         return r, exp
     raise KeyError(tag)
+
+
+def has_poke(t):
+    return t[0] == "poke" or any(has_poke(s_) for s_ in t if isinstance(s_, list) and s_ and isinstance(s_[0], str))
+
+
+def flip_cells(arr, idxs, value=None):
+    for i in idxs:
+        ii = np.unravel_index(i % arr.size, arr.shape)
+        arr[ii] = (not arr[ii]) if value is None else value
+
+
+def apply_pre(leaves, steps, tree=None):
+    """'used, then changed in place': returns the violated oracle clauses seen while replaying the steps"""
+    bad = []
+    for st in steps:
+        k = st[0]
+        if k == "use":
+            for f in leaves:
+                nd = f.mesh.region.ndim
+                with np.errstate(all="ignore"):
+                    _ = (f.norm.array.sum(), f.valid.sum(), tuple(f.mesh.cell), f.mesh.dV,
+                         f.mesh.index2point((0,) * nd), f.mesh.point2index(f.mesh.index2point((0,) * nd)),
+                         list(itertools.islice(iter(f.mesh), 2)), list(itertools.islice(f.mesh.indices, 2)),
+                         f.mesh.region.edges, f.mesh.region.centre, abs(f).array.sum(), f.mean())
+            if tree is not None:
+                try:
+                    with np.errstate(all="ignore"):
+                        ev(tree, Ctx(leaves))          # the operation under test itself, on the earlier state
+                except Exception:  # noqa: BLE001 - may not apply to the earlier state
+                    pass
+        elif k == "valid_write":
+            f = leaves[st[1]]
+            arr_before = f.array.tobytes()
+            flip_cells(f.valid, st[2], st[3])
+            if f.array.tobytes() != arr_before:
+                bad.append("mask-write-changed-values")
+        elif k == "valid_set":
+            f = leaves[st[1]]
+            arr_before = f.array.tobytes()
+            what = st[2]
+            if isinstance(what, list):
+                a, b = what
+                what = np.array([((i * a + b) % 5) < 3 for i in range(f.valid.size)]).reshape(f.valid.shape)
+            f.valid = what
+            if f.array.tobytes() != arr_before:
+                bad.append("setter-changed-values")
+            if f.valid.dtype != np.bool_ or f.valid.shape != tuple(int(v) for v in f.mesh.n):
+                bad.append("not-boolean")
+            if isinstance(what, str):
+                # small-integer values: non-zero <=> length far above 1e-8 (on the CURRENT values)
+                if not np.array_equal(f.valid, np.any(f.array != 0, axis=-1)):
+                    bad.append("norm-not-from-current-values")
+            elif isinstance(what, np.ndarray) and not np.array_equal(f.valid, what):
+                bad.append("array-not-applied")
+        elif k == "array_write":
+            f = leaves[st[1]]
+            v_before = f.valid.tobytes()
+            if st[2] == "scale2":
+                f.array *= 2
+            else:
+                for i in st[3]:
+                    f.array[np.unravel_index(i % f.valid.size, f.valid.shape)] = 0
+            if f.valid.tobytes() != v_before:
+                bad.append("value-write-changed-mask")
+        elif k == "rot_inplace":
+            for f in leaves:
+                prev = f.valid.copy()
+                dims = f.mesh.region.dims
+                r = f.rotate90(dims[st[1]], dims[st[2]], k=st[3], inplace=True)
+                if r is not f:
+                    bad.append("inplace-returned-new-object")
+                if not np.array_equal(f.valid, np.rot90(prev, k=st[3], axes=(st[1], st[2]))):
+                    bad.append("validity-does-not-follow-data")
+        elif k in ("mesh_translate", "mesh_scale"):
+            seen = set()
+            for f in leaves:
+                if id(f.mesh) in seen:
+                    continue
+                seen.add(id(f.mesh))
+                v_before = f.valid.tobytes()
+                if k == "mesh_translate":
+                    f.mesh.translate([float(F(x)) for x in st[1]], inplace=True)
+                else:
+                    fac = [float(F(x)) for x in st[1]]
+                    f.mesh.scale(fac[0] if len(fac) == 1 else fac, inplace=True)
+                if f.valid.tobytes() != v_before:
+                    bad.append("mesh-move-changed-mask")
+    return bad
 
 
 def strip_pos(t):
@@ -375,6 +487,8 @@ def strip_pos(t):
 def depth(t):
     if t[0] == "leaf":
         return 0
+    if t[0] == "poke":
+        return depth(t[2])
     return 1 + max(depth(s) for s in t if isinstance(s, list) and s and isinstance(s[0], str))
 
 
@@ -406,24 +520,27 @@ def un_coq(name, p):
     return UN_CTOR[name]
 
 
-def expr_coq(t):
+def expr_coq(t, idx=None, path=()):
     tag = t[0]
     if tag == "leaf":
         return f"(Leaf {g.nat(t[1])})"
     if tag == "pos":
-        return f"(Pos {expr_coq(t[1])})"
+        return f"(Pos {expr_coq(t[1], idx, path + (1,))})"
+    if tag == "poke":
+        return f"(Leaf {g.nat(idx[path])})"
     if tag == "un":
-        return f"(Un {un_coq(t[1], t[2])} {expr_coq(t[3])})"
+        return f"(Un {un_coq(t[1], t[2])} {expr_coq(t[3], idx, path + (3,))})"
     if tag == "bin":
-        return f"(Bin {BIN_CTOR[t[1]]} {expr_coq(t[3])} {expr_coq(t[4])})"
+        return f"(Bin {BIN_CTOR[t[1]]} {expr_coq(t[3], idx, path + (3,))} {expr_coq(t[4], idx, path + (4,))})"
+    sub = expr_coq(t[3], idx, path + (3,))
     if t[1] == "pad2":
         p = t[2]
         inner = dict(mode=p["mode"], ax=p["ax2"], before=p["before2"], after=p["after2"], cv=p.get("cv"))
         outer = dict(mode=p["mode"], ax=p["ax"], before=p["before"], after=p["after"], cv=p.get("cv"))
         if p.get("swap"):
             inner, outer = outer, inner
-        return f"(Map {map_coq('pad', outer)} (Map {map_coq('pad', inner)} {expr_coq(t[3])}))"
-    return f"(Map {map_coq(t[1], t[2])} {expr_coq(t[3])})"
+        return f"(Map {map_coq('pad', outer)} (Map {map_coq('pad', inner)} {sub}))"
+    return f"(Map {map_coq(t[1], t[2])} {sub})"
 
 
 def scal_coq(x):
@@ -476,7 +593,7 @@ def no_ties(n, n2):
     return all(((2 * j + 1) * n) % (2 * n2) != 0 for j in range(n2))
 
 
-def rand_map(rng, x, allow_io=True, in_tree=True):
+def rand_map(rng, x, allow_io=True, in_tree=True, rotated=False):
     """a random cell-mapping operation applicable to field x: (name, params)"""
     n = [int(k) for k in x.mesh.n]
     nd = len(n)
@@ -489,7 +606,7 @@ def rand_map(rng, x, allow_io=True, in_tree=True):
         kinds += ["hdf5"]
         if nd == 3:
             kinds += ["vtk"]
-    if "blk" in x.mesh.subregions:
+    if "blk" in x.mesh.subregions and not rotated:
         kinds += ["blockname"]
     k = rng.choice(kinds)
     ax = rng.randrange(nd)
@@ -503,7 +620,7 @@ def rand_map(rng, x, allow_io=True, in_tree=True):
     if k == "block":
         offs = [rng.randrange(m) for m in n]
         sh = [rng.randint(1, m - o) for m, o in zip(n, offs)]
-        return "block", dict(offs=offs, sh=sh)
+        return "block", dict(offs=offs, sh=sh, inset=rotated or rng.random() < 0.5)
     if k == "blockname":
         reg = x.mesh.subregions["blk"]
         sub = x.mesh["blk"]
@@ -600,6 +717,49 @@ def rand_bin(rng, x, y):
     return k, {}
 
 
+def rand_pre(rng, c, leaves):
+    """'used, then changed in place' steps applicable to these operands"""
+    n = c["n"]
+    nd = len(n)
+    steps = [["use"]]
+    kinds = ["valid_write", "valid_write", "valid_set", "valid_set", "array_write", "array_write",
+             "mesh_translate", "mesh_scale"]
+    if c.get("own_mesh") and nd >= 2 and all(f.nvdim in (1, nd) for f in leaves):
+        kinds += ["rot_inplace", "rot_inplace", "rot_inplace"]
+    for _ in range(rng.randint(1, 4)):
+        k = rng.choice(kinds)
+        leaf = rng.randrange(len(leaves))
+        idxs = [rng.randrange(64) for _ in range(rng.randint(1, 4))]
+        if k == "valid_write":
+            steps.append([k, leaf, idxs, rng.choice([None, True, False])])
+        elif k == "valid_set":
+            steps.append([k, leaf, rng.choice(["norm", "norm", True, False, None, [rng.randint(1, 4), rng.randint(0, 4)]])])
+        elif k == "array_write":
+            steps.append([k, leaf, rng.choice(["scale2", "zero", "zero"]), idxs])
+            if rng.random() < 0.6:
+                steps.append(["valid_set", leaf, "norm"])        # a cached norm would show here
+        elif k == "rot_inplace":
+            a, b = rng.sample(range(nd), 2)
+            steps.append([k, a, b, rng.choice([1, 1, 3, -1, 2, 5])])
+        elif k == "mesh_translate":
+            steps.append([k, [g.qs(F(rng.randint(-6, 6), 2)) for _ in range(nd)]])
+        else:
+            fac = rng.choice([[2], [F(1, 2)], [-1], [-2], [rng.choice([1, 2, F(1, 2)]) for _ in range(nd)]])
+            steps.append([k, [g.qs(F(x)) for x in fac]])
+    return steps
+
+
+def decorate_map(rng, name, p):
+    """argument representations: numpy scalars of several widths, list / tuple / ndarray, float32 / int coordinates"""
+    if name in ("pad", "pad2", "resample") and rng.random() < 0.5:
+        p["ty"] = rng.choice(["i32", "i64", "u8", "u16", "i8"])
+    if name in ("pad", "pad2", "resample", "range", "block") and rng.random() < 0.6:
+        p["cont"] = rng.choice(["list", "array", "tuple"])
+    if name in ("plane", "range") and rng.random() < 0.5:
+        p["cty"] = rng.choice(["f32", "f64", "int"])
+    return name, p
+
+
 def gen_expr_case(rng, tier, force=None):
     c = base_case(rng, tier)
     n = c["n"]
@@ -607,20 +767,50 @@ def gen_expr_case(rng, tier, force=None):
     if rng.random() < 0.3:
         lo = [rng.randrange(m) for m in n]
         c["sub"] = [lo, [rng.randint(1, m - o) for m, o in zip(n, lo)]]
+    if rng.random() < 0.2:
+        c["dims"] = rng.sample(["V", "n", "r", "v", "t", "q"], nd)        # unusual but legal names
+    elif rng.random() < 0.25 and nd <= 3:
+        c["bc"] = "".join(rng.sample(dims_of(nd), rng.randint(1, nd)))
+    if rng.random() < 0.15:
+        c["units"] = [rng.choice(["m", "", "s", "nm"]) for _ in range(nd)]
     if rng.random() < 0.25:
-        if nd <= 3:
-            c["bc"] = "".join(rng.sample(dims_of(nd), rng.randint(1, nd)))
+        c["intcorners"] = rng.choice(["list", "array"])
     nv = rng.choice([1, 2, 3, 3, nd, nd, 4])
-    cplx = rng.random() < 0.12
-    c["leaves"] = [rand_leaf(rng, n, nv, cplx), rand_leaf(rng, n, nv, cplx), rand_leaf(rng, n, 1, cplx)]
-    mesh = build_mesh(c)
-    leaves = [build_leaf(mesh, n, lf) for lf in c["leaves"]]
+    dt = rng.choice([None, None, None, None, "float32", "int32", "int64", "uint8", "complex", "int8"])
+    c["leaves"] = [rand_leaf(rng, n, nv), rand_leaf(rng, n, nv), rand_leaf(rng, n, 1)]
+    for lf in c["leaves"]:
+        if dt:
+            lf["dtype"] = dt
+        if rng.random() < 0.2:
+            lf["unit"] = rng.choice(["", "A/m", "T"])
+    if nv > 1 and rng.random() < 0.25:
+        labels = ["a", "ab", "abc", "abcd"][:nv]                             # prefixes of one another
+        for lf in c["leaves"][:2]:
+            lf["vdims"] = labels
+            if nv == nd:
+                dims = c.get("dims") or dims_of(nd)
+                pairs = list(zip(labels, dims))
+                rng.shuffle(pairs)                                              # insertion order != vdims order
+                lf["vmap"] = [list(pr) for pr in pairs]
+    state = force is None and rng.random() < 0.35
+    if state and rng.random() < 0.6:
+        c["own_mesh"] = True
+    leaves = build_leaves(c)
+    if state:
+        c["pre"] = rand_pre(rng, c, leaves)
+        try:
+            with np.errstate(all="ignore"):
+                apply_pre(leaves, c["pre"])
+        except Exception:  # noqa: BLE001 - a step that does not apply: start again without the history
+            c.pop("pre")
+            c.pop("own_mesh", None)
+            leaves = build_leaves(c)
     pool = [(["leaf", k], f) for k, f in enumerate(leaves)]
     maxdepth = 3 if tier == "quick" else 5
     steps = rng.randint(1, 4 if tier == "quick" else 7)
     last = None
-    for s in range(steps):
-        cat = rng.choice(["un", "un", "un", "bin", "bin", "bin", "map", "map", "map", "pos"]) if force is None or s else force
+    for s_ in range(steps):
+        cat = rng.choice(["un", "un", "un", "bin", "bin", "bin", "map", "map", "map", "pos"]) if force is None or s_ else force
         try:
             with np.errstate(all="ignore"):
                 if cat == "pos":
@@ -632,7 +822,8 @@ def gen_expr_case(rng, tier, force=None):
                     new = (["un", name, p, t], apply_un(x, name, p))
                 elif cat == "map":
                     t, x = rng.choice(pool[-4:])
-                    name, p = rand_map(rng, x)
+                    rotated = "rot" in str(t) or "rot_inplace" in str(c.get("pre"))
+                    name, p = decorate_map(rng, *rand_map(rng, x, rotated=rotated))
                     new = (["map", name, p, t], apply_map(x, name, p))
                 else:
                     t, x = rng.choice(pool[-4:])
@@ -644,11 +835,18 @@ def gen_expr_case(rng, tier, force=None):
             continue
         if not isinstance(new[1], df.Field) or depth(new[0]) > maxdepth:
             continue
+        if cat != "pos" and s_ < steps - 1 and rng.random() < 0.15:
+            # write into this result's mask in place before it is used further
+            new = (["poke", [rng.randrange(64) for _ in range(rng.randint(1, 3))], new[0]], new[1])
         pool.append(new)
         last = new
     if last is None:
         last = (["un", "neg", {}, ["leaf", 0]], None)
-    c["tree"] = last[0]
+    c["tree"] = last[0] if last[0][0] != "poke" else last[0][2]
+    if rng.random() < 0.5:
+        # in-place writes into the operands' masks between two runs of the same operations
+        c["mid"] = [[rng.randrange(3), [rng.randrange(64) for _ in range(rng.randint(1, 4))]]
+                    for _ in range(rng.randint(1, 3))]
     c["kind"] = "expr"
     return c
 
@@ -859,20 +1057,39 @@ def gen_norm(rng, tier, exact):
     ncell = math.prod(n)
     nv = rng.choice([1, 2, 3, 4])
     t = 1e-8
+    dt = rng.choice([None, None, None, "int32", "int64", "uint8", "float32"])
     vals = []
     for _ in range(ncell):
         v = [0.0] * nv
-        if exact:
+        if dt in ("int32", "int64", "uint8"):
+            # integer-typed fields: squares beyond the integer range must not wrap to zero or negative
+            pool = {"int32": [0, 0, 1, -3, 46341, 65536, 2 ** 31 - 1, -2 ** 31 + 1],
+                    "int64": [0, 0, 1, -7, 3037000500, 2 ** 32, 2 ** 62],
+                    "uint8": [0, 0, 1, 16, 200, 255]}[dt]
+            if exact:
+                v[rng.randrange(nv)] = float(rng.choice(pool))
+            else:
+                v = [float(rng.choice(pool)) for _ in range(nv)]
+        elif dt == "float32":
+            # exactly representable in binary32, far from the threshold (the norm is computed in binary32)
+            pool = [0.0, 0.0, 1.0, -0.5, 2.0 ** -20, 2.0 ** -40, -2.0 ** -70, 2.0 ** 100, 2.0 ** -100, 3.0]
+            v[rng.randrange(nv)] = rng.choice(pool)
+        elif exact:
             x = rng.choice([0.0, t, float(np.nextafter(t, 1)), float(np.nextafter(t, 0)), -t, -float(np.nextafter(t, 1)),
-                            t * 2, t / 2, 1.0, -3.0, 1e-7, 9.5e-9, 1e-9, 1e-300, 5e-324, -1e-8, 1.0000001e-8])
+                            t * 2, t / 2, 1.0, -3.0, 1e-7, 9.5e-9, 1e-9, 1e-300, 5e-324, -1e-8, 1.0000001e-8,
+                            2.0 ** -200, -2.0 ** -537, 2.0 ** 300, 2.0 ** 600, -2.0 ** 1000, 2.0 ** -27, 2.0 ** -26])
             v[rng.randrange(nv)] = x
         else:
-            scale = rng.choice([0.0, t * (1 - 1e-6), t * (1 + 1e-6), t * 0.99, t * 1.01, t * 0.5, t * 3, 1.0, 1e-12, 1e6, 1e-7])
+            scale = rng.choice([0.0, t * (1 - 1e-6), t * (1 + 1e-6), t * 0.99, t * 1.01, t * 0.5, t * 3, 1.0, 1e-12, 1e6, 1e-7,
+                                2.0 ** -200, 2.0 ** 300])
             d = [rng.choice([-2, -1, 1, 2, 3, 0]) for _ in range(nv)]
             nn = math.sqrt(sum(x * x for x in d))
             v = [scale * x / nn for x in d] if nn else [0.0] * nv
         vals += v
-    c.update(nvdim=nv, vals=[g.qs(F(x)) for x in vals], exact=exact, how=rng.choice(["ctor", "assign"]), kind="norm")
+    if dt == "float32":
+        exact = False
+    c.update(nvdim=nv, vals=[g.qs(F(x)) for x in vals], exact=exact, how=rng.choice(["ctor", "assign", "rewrite", "rewrite"]),
+             kind="norm", dtype=dt)
     return c
 
 
@@ -887,7 +1104,11 @@ def gen_vtkenc(rng, tier):
 def generate(rng, tier):
     quick = tier == "quick"
     cases = []
-    cases += gen_single_op_cases(rng, tier)
+    single = gen_single_op_cases(rng, tier)
+    for c in single:
+        if not c.get("expect_reject"):
+            c["mid"] = [[k, [rng.randrange(64) for _ in range(rng.randint(1, 3))]] for k in range(3)]
+    cases += single
     for _ in range(420 if quick else 4000):
         cases.append(gen_expr_case(rng, tier))
     for cat in ("map", "bin", "un"):
@@ -908,45 +1129,67 @@ def generate(rng, tier):
 
 
 # ------------------------------------------------------------------ runners
-def run_expr(c):
-    rec = dict(kind="expr", case=c, oracle=[], tags=[])
-    n = c["n"]
-    mesh = build_mesh(c)
-    leaves = [build_leaf(mesh, n, lf) for lf in c["leaves"]]
-    snap = [f.valid.copy() for f in leaves]
-    snap_arr = [f.array.copy() for f in leaves]
-    tree = c["tree"]
+def env_coq(ctx, masks, extra_masks):
+    items = [f"({g.nl(m.shape)}, {g.bl(m.reshape(-1).tolist())})" for m in list(masks) + list(extra_masks)]
+    return "[" + "; ".join(items) + "]"
+
+
+def observe(c, tree, leaves, rec):
+    """one run of the operation tree on the operands as they are now.
+    returns dict(coq=..., res2=...) or dict(coq=..., rejected=True)"""
+    del ARG_CHANGED[:]
+    snaps = [snap_field(f) for f in leaves]
+    masks0 = [np.array(f.valid, dtype=bool).copy() for f in leaves]
+    ctx = Ctx(leaves)
     with np.errstate(all="ignore"):
-        st, r = attempt(lambda: ev(tree, leaves))
-    env = "[" + "; ".join(f"({g.nl(n)}, {g.bl(lf['mask'])})" for lf in c["leaves"]) + "]"
-    geo = None
-    if c.get("geo"):
-        geo = f"CBinGeo {env} {g.nat(len(n))} {BIN_CTOR[tree[1]]} {expr_coq(tree[3])} {expr_coq(tree[4])}"
-    top = tree[0] if tree[0] != "pos" else "pos"
-    opname = tree[1] if tree[0] in ("un", "bin", "map") else tree[0]
+        st, r = attempt(lambda: ev(tree, ctx))
     if st != "ok" or not isinstance(r[0], df.Field):
         err = r if st != "ok" else "not-a-field"
         if not c.get("expect_reject"):
             rec["oracle"].append("operation-raised")
-        rec.update(obs=dict(err=err), key=f"expr/rej/{opname}", size=len(str(tree)),
-                   coq=(geo + " None") if geo else f"CExpr {env} {expr_coq(tree)} None [] []")
-        return rec
+        if [snap_field(f) for f in leaves] != snaps:
+            rec["oracle"].append("operand-changed")
+        coq = None
+        if not has_poke(tree):
+            coq = f"CExpr {env_coq(ctx, masks0, [])} {expr_coq(tree)} None [] []"
+        return dict(coq=coq, rejected=True, obs=dict(err=err))
     res, exp = r
     if c.get("expect_reject"):
         rec["oracle"].append("different-meshes-accepted")
+    # the same call again: equal result, operands and caller-supplied containers untouched
+    ctx2 = Ctx(leaves)
+    with np.errstate(all="ignore"):
+        st2, r2 = attempt(lambda: ev(tree, ctx2))
+    res2 = r2[0] if st2 == "ok" else None
+    is_operand = strip_pos(tree)[0] in ("leaf", "poke")
+    if res2 is None or res2.array.tobytes() != res.array.tobytes() or res2.valid.tobytes() != res.valid.tobytes() \
+            or res2.valid.shape != res.valid.shape or res2.vdims != res.vdims or res2.unit != res.unit \
+            or list(res2.vdim_mapping.items()) != list(res.vdim_mapping.items()) or res2.mesh != res.mesh:
+        rec["oracle"].append("repeated-call-differs")
+    if [snap_field(f) for f in leaves] != snaps:
+        rec["oracle"].append("operand-changed")
+    if ARG_CHANGED:
+        rec["oracle"].append("caller-argument-changed")
     valid = res.valid
-    shares = [bool(np.shares_memory(valid, f.valid)) for f in leaves]
+    extras = [x for x, _ in ctx.extra]
+    extra_masks = [m for _, m in ctx.extra]
+    operands = list(leaves) + extras
+    before = masks0 + extra_masks
+    shares = [bool(np.shares_memory(valid, f.valid)) for f in operands]
     isbool = valid.dtype == np.bool_
     shape_ok = tuple(valid.shape) == tuple(int(k) for k in res.mesh.n)
     mask = np.array(valid, dtype=bool).copy()
-    # probe: invert the result's mask in place, re-read the operands'
+    keep2 = None if res2 is None else np.array(res2.valid, dtype=bool).copy()
+    # probe: invert the result's mask in place, re-read the operands' (and the repeated call's result)
     try:
         res.valid[...] = np.logical_not(res.valid)
     except Exception:  # noqa: BLE001
         rec["oracle"].append("result-mask-not-writable")
-    touched = [not np.array_equal(f.valid, s) for f, s in zip(leaves, snap)]
-    vals_changed = [f.array.tobytes() != s.tobytes() for f, s in zip(leaves, snap_arr)]
-    # ---- oracle: the property text on the implementation's outputs
+    touched = [not np.array_equal(f.valid, m) for f, m in zip(operands, before)]
+    if res2 is not None and not is_operand and not np.array_equal(res2.valid, keep2):
+        rec["oracle"].append("results-share-mask")
+    if any(f.array.tobytes() != sn["values"] for f, sn in zip(leaves, snaps)):
+        rec["oracle"].append("operand-values-changed")
     if not isbool:
         rec["oracle"].append("not-boolean")
     if not shape_ok:
@@ -955,17 +1198,56 @@ def run_expr(c):
         rec["oracle"].append("validity-does-not-follow-data")
     if any(shares) or any(touched):
         rec["oracle"].append("own")
-        if strip_pos(tree)[0] == "leaf":
+        if is_operand:
             rec["tags"].append(POS_TAG)
-    if any(vals_changed):
-        rec["oracle"].append("operand-values-changed")
     obs = dict(shape=list(mask.shape), mask=mask.reshape(-1).tolist(), dtype=str(valid.dtype), shares=shares,
                touched=touched)
-    coq = (f"CExpr {env} {expr_coq(tree)} (Some ({g.nl(mask.shape)}, {g.bl(obs['mask'])})) "
-           f"{g.bl(shares)} {g.bl(touched)}")
+    coq = (f"CExpr {env_coq(ctx, masks0, extra_masks)} {expr_coq(tree, ctx.idx)} "
+           f"(Some ({g.nl(mask.shape)}, {g.bl(obs['mask'])})) {g.bl(shares)} {g.bl(touched)}")
+    return dict(coq=coq, rejected=False, obs=obs, res2=res2, is_operand=is_operand)
+
+
+def run_expr(c):
+    rec = dict(kind="expr", case=c, oracle=[], tags=[])
+    n = c["n"]
+    leaves = build_leaves(c)
+    tree = c["tree"]
+    if c.get("pre"):
+        with np.errstate(all="ignore"):
+            rec["oracle"] += apply_pre(leaves, c["pre"], tree)
+    opname = tree[1] if tree[0] in ("un", "bin", "map") else tree[0]
+    o1 = observe(c, tree, leaves, rec)
+    geo = None
+    if c.get("geo"):
+        env = "[" + "; ".join(f"({g.nl(n)}, {g.bl(lf['mask'])})" for lf in c["leaves"]) + "]"
+        geo = f"CBinGeo {env} {g.nat(len(n))} {BIN_CTOR[tree[1]]} {expr_coq(tree[3])} {expr_coq(tree[4])}"
+    if o1["rejected"]:
+        rec["oracle"] = sorted(set(rec["oracle"]))
+        rec.update(obs=o1["obs"], key=f"expr/rej/{opname}/{bool(c.get('pre'))}", size=len(str(tree)),
+                   coq=(geo + " None") if geo else o1["coq"])
+        return rec
+    coq = o1["coq"]
+    obs = o1["obs"]
     if geo:
-        coq = f"{geo} (Some ({g.nl(mask.shape)}, {g.bl(obs['mask'])}))"
-    sig = str(tree)
+        coq = f"{geo} (Some ({g.nl(obs['shape'])}, {g.bl(obs['mask'])}))"
+    elif c.get("mid"):
+        # in-place writes into the operands' masks, then the same operations again
+        res2 = o1["res2"]
+        keep = None if res2 is None else np.array(res2.valid, dtype=bool).copy()
+        for leaf, idxs in c["mid"]:
+            flip_cells(leaves[leaf].valid, idxs)
+        if res2 is not None and not o1["is_operand"] and not np.array_equal(res2.valid, keep):
+            rec["oracle"].append("own")          # an earlier result changed when an operand's mask was written
+        o2 = observe(c, tree, leaves, rec)
+        if o2["rejected"]:
+            rec["oracle"].append("operation-raised")
+        elif o2["coq"] and coq:
+            coq = f"CBoth ({coq}) ({o2['coq']})"
+            obs = dict(first=obs, second=o2["obs"])
+    rec["oracle"] = sorted(set(rec["oracle"]))
+    if POS_TAG in rec["tags"]:
+        rec["tags"] = [POS_TAG]
+    sig = str(tree) + str(c.get("pre")) + str(c.get("mid"))
     rec.update(obs=obs, coq=coq, key=f"expr/{tuple(n)}/{hash(sig)}/{hash(tuple(c['leaves'][0]['mask']))}",
                size=len(sig) + math.prod(n), nontrivial=not all(all(lf["mask"]) for lf in c["leaves"]))
     return rec
@@ -1025,7 +1307,7 @@ def decode_vinput(c, mesh, rng_vals=None):
         return v[1], "VStr", None
     if v[0] == "array":
         _, sh, dt, cells, aslist = v
-        arr = np.array(cells, dtype={"bool": bool, "int": np.int64, "float": float}[dt]).reshape(sh)
+        arr = np.array(cells, dtype=SETDT[dt]).reshape(sh)
         coq = f"(VArray {g.nl(sh)} {g.lst([scal_coq(x) for x in arr.reshape(-1).tolist()])})"
         if aslist:
             return arr.tolist(), coq, None
@@ -1104,7 +1386,7 @@ def run_setter(c):
         if v[0] == "const" and not np.array_equal(mask, np.full(n, bool(v[1]))):
             rec["oracle"].append("constant-not-applied")
         if v[0] == "array" and list(v[1]) == list(n):
-            want = np.array(v[3], dtype={"bool": bool, "int": np.int64, "float": float}[v[2]]).reshape(n).astype(bool)
+            want = np.array(v[3], dtype=SETDT[v[2]]).reshape(n).astype(bool)
             if not np.array_equal(mask, want):
                 rec["oracle"].append("array-not-applied")
         if v[0] == "callable":
@@ -1123,13 +1405,26 @@ def run_norm(c):
     n = c["n"]
     nv = c["nvdim"]
     mesh = build_mesh(c)
-    vals = np.array([float(F(x)) for x in c["vals"]], dtype=float).reshape(*n, nv)
+    dt = DTYPES[c.get("dtype") or "float64"]
+    if c.get("dtype") in ("int32", "int64", "uint8"):
+        vals = np.array([int(F(x)) for x in c["vals"]], dtype=dt).reshape(*n, nv)
+    else:
+        vals = np.array([float(F(x)) for x in c["vals"]], dtype=float).astype(dt).reshape(*n, nv)
     before = vals.copy()
     if c["how"] == "ctor":
-        f = df.Field(mesh, nvdim=nv, value=vals, valid="norm")
-    else:
-        f = df.Field(mesh, nvdim=nv, value=vals, valid=False)
+        f = df.Field(mesh, nvdim=nv, value=vals, valid="norm", dtype=dt)
+    elif c["how"] == "assign":
+        f = df.Field(mesh, nvdim=nv, value=vals, valid=False, dtype=dt)
         f.valid = "norm"
+    else:
+        # used, then changed in place: other values first (norm and validity read), then the values under
+        # test written into the array in place, then valid = "norm" again
+        f = df.Field(mesh, nvdim=nv, value=np.ones_like(vals), valid="norm", dtype=dt)
+        _ = (f.norm.array.sum(), f.valid.sum(), f.orientation.array.sum() if nv > 1 else 0)
+        f.array[...] = vals
+        f.valid = "norm"
+    if f.array.dtype != vals.dtype:
+        rec["oracle"].append("dtype-changed")
     if f.array.tobytes() != before.tobytes():
         rec["oracle"].append("setter-changed-values")
     valid = f.valid
@@ -1186,12 +1481,16 @@ def run_case(c):
 
 
 def stats(records):
-    out = {"rejected": 0, "masked": 0, "ops": {}}
+    out = {"rejected": 0, "masked": 0, "ops": {}, "with_history": 0, "with_mid_writes": 0, "with_poke": 0}
     for r in records:
         c = r["case"]
         if "err" in (r.get("obs") or {}):
             out["rejected"] += 1
         if c["kind"] == "expr":
+            out["with_history"] += int(bool(c.get("pre")))
+            out["with_mid_writes"] += int(bool(c.get("mid")))
+            out["with_poke"] += int(has_poke(c["tree"]))
+
             def walk(t):
                 if t[0] in ("un", "bin", "map"):
                     out["ops"][t[0] + ":" + t[1]] = out["ops"].get(t[0] + ":" + t[1], 0) + 1
